@@ -288,6 +288,10 @@ class HistoryStream(Stream):
                 stats["fails"][name] = stats["fails"].get(name, 0) + 1
         if not step.get("merge"):
             stats["written_nomerge"] += 1
+        if step.get("merge") and parts.get("M") != "1":
+            for name, bit in zip(("merge-lf-file", "merge-step-hyps", "merge-reads-back"), parts.get("E", ":---")[1:]):
+                if bit == "0":
+                    stats["fails"][name] = stats["fails"].get(name, 0) + 1
         if step.get("merge") and parts.get("M") == "1":
             # C09_step_merge / C09_history_merge: licences, the same holders, year ranges cover
             stats["merge_hold"] = stats.get("merge_hold", 0) + 1
